@@ -178,9 +178,17 @@ def validate_trie(outdir, workers=8, timeout=1500):
                   {"PROGS": os.path.join(outdir, "progs.ndjson"), "TRIE": trie}, outdir, workers=workers,
                   timeout=timeout)
     reached = set()
+    best = {}
     for p in tlc_lines(res["out"], "LEAF"):
-        reached.add(int(p))
+        nid, names = p.split(", ", 1)
+        nid = int(nid)
+        reached.add(nid)
+        vs = frozenset(x.strip().strip('"') for x in names.strip("{}").split(",") if x.strip())
+        # several inference branches may reach the same leaf: the execution is explained by the cleanest one
+        if nid not in best or len(vs) < len(best[nid]):
+            best[nid] = vs
     res["nodes"] = n
+    res["leaf_violations"] = {k: sorted(v) for k, v in best.items() if v}
     return reached, leaves, res
 
 
@@ -231,6 +239,38 @@ def diagnose_leaf(outdir, nodes, parent, leaf, tag):
     first_bad = events[matched] if matched < len(events) else None
     return {"events": events, "matched": matched, "first_unmatched": first_bad, "spec_state": state[:3000],
             "tlc_errors": res["errors"][:5]}
+
+
+def diagnose_invariant(outdir, nodes, parent, leaf, name):
+    """Find the first event of the trace to `leaf` after which invariant `name` is violated on the surviving
+    branch: validate growing prefixes of the single trace (binary search over prefix length)."""
+    path = path_to(nodes, parent, leaf)
+
+    def bad(k):
+        d = fresh_dir(os.path.join(outdir, "diaginv"))
+        lin = [{"kids": [2], "ev": {"e": "root"}}]
+        for i, nid in enumerate(path[:k]):
+            lin.append({"kids": [i + 3] if i + 1 < k else [], "ev": nodes[nid]["ev"]})
+        write_ndjson(os.path.join(d, "trie.ndjson"), lin)
+        shutil.copy(os.path.join(outdir, "progs.ndjson"), os.path.join(d, "progs.ndjson"))
+        res = run_tlc("TraceShuttle", "TraceShuttle.cfg",
+                      {"PROGS": os.path.join(d, "progs.ndjson"), "TRIE": os.path.join(d, "trie.ndjson")}, d, workers=1, timeout=300)
+        vs = None
+        for p in tlc_lines(res["out"], "LEAF"):
+            nid, names = p.split(", ", 1)
+            cur = [x.strip().strip('"') for x in names.strip("{}").split(",") if x.strip()]
+            if vs is None or len(cur) < len(vs):
+                vs = cur
+        return vs is not None and name in vs
+
+    lo, hi = 1, len(path)
+    while lo < hi:
+        mid = (lo + hi) // 2
+        if bad(mid):
+            hi = mid
+        else:
+            lo = mid + 1
+    return lo
 
 
 def run_mc(progs_file, workdir, workers=8, timeout=1500):
